@@ -48,12 +48,12 @@ c.finish(
         "thresholds: 5 s + 50 us per input/output byte of CPU time (user+system of the decoding process: independent of the load on the machine; wall-clock serves only as a hang guard: 90 s without output and without CPU use); StreamBudget(rawLen) + 4*|out| + 1 MiB*(1+stages); goroutine count back to baseline within 2 s of Close; "
         "a suspected violation is re-run three times in fresh processes before it is reported",
         "for JBIG2 inputs with many large regions the LIVE heap is sampled during the decode (runtime.GC + HeapAlloc every 2 ms) against StreamBudget(rawLen) + 1 MiB: this ties the pool model's live <= peak <= taken invariant to the bytes really reachable, by measurement; for those cases the cumulative TotalAlloc is not judged",
-        "progressive JPEGs built by the harness from scan scripts (DC/AC, first pass/refinement, EOB-run tokens, restart intervals; up to 10000 scans of 26 bytes over 131044 blocks in the quick tier) run under the same tighter watchdog; "
+        "progressive JPEGs built by the harness from scan scripts (DC/AC, first pass/refinement, EOB-run tokens, restart intervals; up to 10000 scans of 26 bytes over 131044 blocks in the quick tier) run in a process of their own under the general watchdog (5 s + 50 us per byte of CPU time): the decoder's own bound is maxProgPasses = 64 walks over at most StreamBudget(rawLen)/256 = 32768 + 4*rawLen blocks, about 0.3 s + 33 us per input byte, and the scripts need 0.3 s to 1.1 s on the unchanged tree (the tighter watchdog below does not apply to them: it was applied until a slower machine showed that the slowest script used 80% of it); "
         "the pass cap itself (blocks walked <= maxProgPasses x blocks allocated + 1, dct_pass_cap) is tied through the hook VerifProgVisits, which reads the real decoder's counter - a change that stops counting some visits is seen by the counter comparison and by the watchdog, not by the theorem",
         "DCT frame kinds: DCTFrames.v models only which SOS may follow which and when rows are written (not the entropy decoding); it is compared on every SOF marker C0..CF x nine scan scripts x 1/3/4 components, and every such body is held to the size of the image it declares (output-bound); rows already written when a file is refused can be lost in the decoder's output buffer, so only the verdict is compared then",
         "budget identity along the chain is measured, not proved for the implementation: JBIG2, DCT, CCITT and predictor stages behind Flate/LZW/RunLength/ASCIIHex stages with enormously expanding bodies are held to StreamBudget(RAW length) by the live-heap and TotalAlloc oracles (chain_memory_bound states the shared cell for the model)",
         "JBIG2 is not modelled: structurally valid but hostile symbol dictionaries (Huffman with refinement and aggregation, every reference ID, several symbols per height class, imported symbols; Huffman without refinement; the package's encoders for Huffman-refinement and arithmetic-aggregation dictionaries and for arithmetic/Huffman/refining text regions, mutated; refinement and text regions referring to missing, repeated or wrong segments, with and without a page) are judged by the oracle only (no panic, malformed classification, resource bounds)",
-        "CCITT 2-D bodies packed by the harness from chosen codes (dense reference row, then VR/VL, pass or V0 storms, Columns up to 2^18 quick / 2^20 thorough) run under a tighter watchdog of 0.75 s + 5 us per byte (the unchanged tree needs < 0.05 s)",
+        "CCITT 2-D bodies packed by the harness from chosen codes (dense reference row, then VR/VL, pass or V0 storms, Columns up to 2^18 quick / 2^20 thorough) and JBIG2 region storms run under a tighter watchdog of 0.75 s + 5 us per byte (the unchanged tree needs < 0.1 s)",
         "output bounds of CCITTFax (rows <= min(MaxImageHeight, MaxImagePixels/Columns)), JBIG2 (<= StreamBudget(rawLen)) and DCT (<= MaxImageBytes) are measured on hostile headers, not proved (those decoders are not modelled)",
         "the models read each decoder with one Read loop over a buffer larger than the data; RunLength may report a clean end instead of Malformed when a consumer buffer boundary falls inside a truncated literal run (both outcomes satisfy C08); the harness compares RunLength stages only where no boundary can fall (note in coq/C08/Simple.v)",
         "zlib (FlateDecode), CCITTFax, JBIG2, DCT decoding are outside the models: for them only the oracle on the implementation applies",
